@@ -6,7 +6,7 @@ import copy
 
 from ..core import digest_of, jsonable, rng_from
 from ..crashloop import ROUTES, explore
-from ..swarm import draw_smc_scenario
+from ..swarm import PRECONDS_WITH_FLOW, draw_smc_scenario
 from .common import COMPONENTS, crash_case, shrink_scenario_candidates
 
 ID = "C11"
@@ -94,7 +94,7 @@ def scenario_of(case):
         dtypes=(None, None, "float64", "float32"),
         particles=(12, 32) if quick else (12, 64),
         kernel_steps=(1, 2) if quick else (1, 3),
-        hard=bool(case["run_index"] % 2),
+        hard=bool(case["run_index"] % 2), preconds=PRECONDS_WITH_FLOW,
     )
 
 
